@@ -184,7 +184,7 @@ def index_form(d, bv: tuple):
     """(domain, element) with sequence iteration rewritten to index iteration."""
     if isinstance(d, tuple) and d and d[0] == "iter":
         T = d[1]
-        return ("range", ZERO, atom_poly(("call", "len", (T,)))), subscript(T, bv)
+        return ("range", ZERO, length_of(T)), subscript(T, bv)
     if isinstance(d, tuple) and d and d[0] == "dom":
         return index_form(d[1], bv)
     if isinstance(d, tuple) and d and d[0] == "enumerate":
@@ -193,6 +193,23 @@ def index_form(d, bv: tuple):
             return inner, mk_tuple((add(bv, d[2]), elem))
         return d, bv
     return d, bv
+
+
+def length_of(t: tuple) -> tuple:
+    """len(t): literal displays have a constant length, an unfiltered comprehension over range(lo, hi) has
+    hi - lo elements, list()/tuple()/.keys() wrappers do not change the length."""
+    t = norm_iter(t)
+    if isinstance(t, tuple) and t and t[0] == "dom":
+        d = t[1]
+        if isinstance(d, tuple) and d[0] == "range":
+            return sub(d[2], d[1])
+        return atom_poly(("call", "len", (t,)))
+    a = single_atom(t)
+    if a is not None and a[0] in ("list", "tuple"):
+        return const(len(a[1]))
+    if a is not None and a[0] == "seq" and isinstance(a[2], tuple) and a[2][0] == "range":
+        return sub(a[2][2], a[2][1])
+    return atom_poly(("call", "len", (t,)))
 
 
 def norm_iter(t: tuple) -> tuple:
@@ -614,7 +631,7 @@ class Translator:
             if r is not None:
                 return r
         if name == "len" and len(args) == 1 and not kw:
-            return atom_poly(("call", "len", (norm_iter(self.tr(args[0])),)))
+            return length_of(self.tr(args[0]))
         if name in ("abs", "np.abs", "numpy.abs", "math.fabs", "np.fabs") and len(args) == 1:
             return atom_poly(("call", "abs", (self.tr(args[0]),)))
         if name in ("list", "tuple") and len(args) == 1 and not kw:
@@ -929,6 +946,11 @@ def canon_atom(at: tuple, depth: int) -> tuple:
         body2 = canon(rename_bound(body, f"#{lvl}", new), depth + 1)
         dom2 = canon(rename_bound(dom, f"#{lvl}", new), depth + 1)
         return atom_poly((op, body2, dom2, depth))
+    if at[0] == "first" and len(at) == 5:
+        _, val, dom, cond, lvl = at
+        new = f"@{depth}"
+        return atom_poly(("first", canon(rename_bound(val, f"#{lvl}", new), depth + 1), canon(rename_bound(dom, f"#{lvl}", new), depth + 1),
+                          canon(rename_bound(cond, f"#{lvl}", new), depth + 1), depth))
     if at[0] == "dictacc":
         ents = []
         for kind, key, val, ctx in at[1]:
